@@ -37,6 +37,10 @@ import Glom.Model.C02Heap
       and the case is reported as a disagreement);
     * `agree`  = the code-shaped model (`record` + `tEval` on the regenerated
                  tables) produces the implementation's observation and final target.
+  Floats whose value the kernel does not reproduce (`float // x`, `x ** y` through libm) are the
+  opaque float `{"f": "?"}` on the Lean side: the comparisons above are then modulo opaque floats
+  (the class of every outcome and the position of every failure are still compared exactly), and
+  `holds` is evaluated against CPython's own outcome.
 -/
 namespace Glom.C02.Driver
 open Lean Glom Glom.C02
